@@ -265,3 +265,71 @@ def u_apportion(ctx):
                detail="; ".join(repr(r) + r.tb[-1200:] for r in raised[:1]))
     ctx.record("nhaploblk_chrom:loop-cut", f.loops_cut == set(f.loops), kind="cover", detail=str(f.loops))
     ctx.record("nhaploblk_chrom:returns-on-some-path (cover)", any(o == "ok" for o in outs) and any(o == "raised" for o in outs), kind="cover")
+
+
+OPVP = "pybrops/breed/prot/sel/prob/OptimalPopulationValueSelectionProblem.py"
+GBP = "pybrops/breed/prot/sel/prob/GenotypeBuilderSelectionProblem.py"
+
+
+@unit(P, "B[OPV / GenotypeBuilder latentfn == -ploidy * sum over blocks of the best block value among the selected individuals, "
+         "for the block values the problem holds NOW]", "B", bounded=True,
+      targets=[OPVP + ":OptimalPopulationValueSubsetSelectionProblem.latentfn", GBP + ":GenotypeBuilderSubsetSelectionProblem.latentfn"],
+      note="bounded(shape): <=3 individuals, <=2 blocks, <=2 traits, selections of 1-2 individuals (repeats included), nbestfndr 1-2; "
+           "block values symbolic reals; checked on construction, after the haplomat setter and after an in-place write")
+def u_b_latent(ctx):
+    def body(e, shape, tag):
+        import importlib
+        kind, n, b, t, x, nbest = shape
+        x = numpy.array(x, dtype=int)
+        k = len(x)
+        kw = dict(ndecn=k, decn_space=numpy.arange(max(n, k)), decn_space_lower=numpy.repeat(0, k),
+                  decn_space_upper=numpy.repeat(max(n - 1, 0), k), nobj=t)
+        H = barr.fresh("h", (2, n, b, t), "float64")
+        if kind == "opv":
+            C = importlib.import_module(OPVP[:-3].replace("/", ".")).OptimalPopulationValueSubsetSelectionProblem
+            prob = C(haplomat=H, **kw)
+        else:
+            C = importlib.import_module(GBP[:-3].replace("/", ".")).GenotypeBuilderSubsetSelectionProblem
+            prob = C(haplomat=H, nbestfndr=nbest, **kw)
+
+        def mx(vals):
+            m = vals[0]
+            for v in vals[1:]:
+                m = z3.If(v > m, v, m)
+            return m
+
+        def mn(vals):
+            m = vals[0]
+            for v in vals[1:]:
+                m = z3.If(v < m, v, m)
+            return m
+
+        def check(sub, A):
+            fr = modeb.Frame(h=A)
+            out = prob.latentfn(x)
+            e.prove(tag + sub + ":shape", tuple(out.shape) == (t,))
+            for tr in range(t):
+                tot = z3.RealVal(0)
+                for blk in range(b):
+                    per = [mx([R(A[ph, int(i), blk, tr]) for ph in range(2)]) for i in x]      # each selected individual's better copy
+                    if kind == "opv" or nbest == 1:
+                        tot = tot + mx(per)
+                    elif nbest == k:
+                        tot = tot + sum(per[1:], per[0])
+                    else:                                      # the nbest largest of k = 2..3 values with nbest = k - 1
+                        tot = tot + sum(per[1:], per[0]) - mn(per)
+                want = -2 * tot if kind == "opv" else -(z3.RealVal(2) / nbest) * tot
+                e.prove(tag + sub + ":latentfn[%d]" % tr, R(out[tr]) == want)
+            e.prove(tag + sub + ":frame:block-values-not-written", fr.unchanged() and prob.haplomat is A)
+        check("", H)
+        H2 = barr.fresh("h2", (2, n, b, t), "float64")
+        prob.haplomat = H2
+        check(":after-haplomat-setter", H2)
+        H2[...] = barr.fresh("h3", (2, n, b, t), "float64")
+        check(":after-in-place-write", H2)
+        return "ok"
+    shapes = [("opv", 2, 1, 1, (0, 1), 1), ("opv", 3, 2, 1, (2, 0), 1), ("opv", 2, 1, 2, (1, 1), 1), ("opv", 2, 2, 1, (1,), 1),
+              ("gb", 2, 1, 1, (0, 1), 1), ("gb", 2, 1, 1, (0, 1), 2), ("gb", 3, 2, 1, (2, 0), 1)]
+    if ctx.tier == "thorough":
+        shapes += [("opv", 3, 2, 2, (0, 1, 2), 1), ("gb", 3, 1, 1, (0, 1, 2), 2)]
+    modeb.run_shapes(ctx, "latent", shapes, body, max_paths=20000)
